@@ -602,7 +602,7 @@ func c05Known(c *Ctx) {
 func init() {
 	register(&Check{
 		ID: "C05", Level: "exploration",
-		Rule: "typed random expression trees over all 15 operators x operand kinds (every int/uint width, float32/64, string, bool, time, values behind pointers, JSON members, top-level variables), built-ins and fixed/variadic fact methods, depth <=4 (quick) / <=6 (thorough), states free of overflow, division by zero and NaN (checked with big integers); each tree in 4 spellings (plain; tight spacing + comments; keyword case + literal notation; all together + !(atom)); one expression per knowledge base stored into a nil interface field (dynamic kind visible) and, when boolean, also used as a condition; the documented literal tables replayed verbatim with values computed by math/big; a deterministic function table (every math wrapper, Max/Min tuples of either sign with the extreme at every position, every string function over receivers with all kinds of edge whitespace, once on a literal and once on a fact field); non-trivial = distinct (expression, state) with depth >=3 and >=2 operator classes, or an escaped string literal, or a literal-table entry",
+		Rule: "typed random expression trees over all 15 operators x operand kinds (every int/uint width, float32/64, string, bool, time, values behind pointers, JSON members, top-level variables), built-ins and fixed/variadic fact methods, depth <=4 (quick) / <=6 (thorough), states free of overflow, division by zero and NaN (checked with big integers); each tree in 4 spellings (plain; tight spacing + comments; keyword case + literal notation; all together + !(atom)); one expression per knowledge base stored into a nil interface field (dynamic kind visible) and, when boolean, also used as a condition; the documented literal tables replayed verbatim with values computed by math/big; a deterministic function table (every math wrapper, Max/Min tuples of either sign with the extreme at every position, every string function over receivers with all kinds of edge whitespace, once on a literal and once on a fact field); non-trivial = distinct (expression, state) with depth >=3 and >=2 operator classes, or an escaped string literal, or a literal-table entry; the table also holds division of exact dividends up to 2^62 and a variadic ...interface{} method handed JSON arrays / objects; generator cases keep their PRNG index when the table grows",
 		Assume: []string{"string + real rendering is unspecified (left out)", "reference interpreter groups by the published precedence table", "K1 signature: the engine's result equals the reference value of the tree regrouped with & at the additive level"},
 		Cases:  func(t string) int { return tierN(4000, 250000)(t) + len(docLiterals) + 2*len(c05FuncCases) },
 		Run:    runC05Case,
